@@ -594,6 +594,9 @@ pub fn sites() -> Vec<Site> {
         main_only(format!("#d 0xa5[{}:{}] @ 0b1010010\n", m.e(), m.e()), exact(&[(bit << 7) | 0x52]))
     }));
     v.push(site("unsized-data-concat-of-slices", Value, "#d 0xa5[N:0] @ 0xa5[N:0]", |m| main_only(format!("#d 0xa5[{}:0] @ 0xa5[{}:0]\n", m.e(), m.e()), Expect::None)));
+    // ... and in a branch that is only SIZED, never evaluated (so the answer comes at once at every magnitude)
+    v.push(site("unsized-data-untaken-concat-of-slices", Value, "#d 1 == 1 ? 0x55 : (0xa5[N:0] @ 0xa5[N:0])", |m| main_only(format!("#d 1 == 1 ? 0x55 : (0xa5[{}:0] @ 0xa5[{}:0])\n", m.e(), m.e()), exact(&[0x55]))));
+    v.push(site("unsized-data-untaken-slice", Value, "#d 1 == 1 ? 0x55 : 0xa5[N:0]", |m| main_only(format!("#d 1 == 1 ? 0x55 : 0xa5[{}:0]\n", m.e()), exact(&[0x55]))));
     v.push(site("backtick-width", Value, "#d8 (0xa5`N)[7:0]", |m| {
         main_only(format!("#d8 (0xa5`{})[7:0]\n", m.e()), if *m.z() >= Z::from(8) { exact(&[0xa5]) } else { Expect::None })
     }));
